@@ -109,33 +109,64 @@ func runC19(p *an.Prog, r *an.Run, tier string) {
 	if !okRet {
 		bad = append(bad, "the normalised URL is never returned")
 	}
-	// foreign id refused
+	// foreign id refused (in normalizeNodeURI or in a helper it delegates to)
 	okForeign := false
-	an.AllInstrs(nz, func(in ssa.Instruction) {
-		iff, ok := in.(*ssa.If)
-		if !ok {
-			return
-		}
-		rel, ok := an.NormCond(iff.Cond)
-		if !ok || rel.Kind != "string" || (rel.Op != token.NEQ && rel.Op != token.EQL) {
-			return
-		}
-		isUser := func(v ssa.Value) bool {
-			c, ok := v.(*ssa.Call)
-			return ok && an.CallObj(c) != nil && an.CallObj(c).Name() == "Username"
-		}
-		if !((isUser(rel.L) && rel.R == ssa.Value(idPrm)) || (isUser(rel.R) && rel.L == ssa.Value(idPrm))) {
-			return
-		}
-		ne := 0
-		if rel.Op == token.EQL {
-			ne = 1
-		}
-		// the mismatch edge returns an error and never reaches the URL construction
-		if pathFromBlock(nz, iff.Block().Succs[ne], nil, func(x ssa.Instruction) bool { return x == ssa.Instruction(stores["Host"]) }) == nil {
-			okForeign = true
-		}
-	})
+	for _, rf := range regionFuncs(p, nz) {
+		rf := rf
+		an.AllInstrs(rf, func(in ssa.Instruction) {
+			iff, ok := in.(*ssa.If)
+			if !ok {
+				return
+			}
+			rel, ok := an.NormCond(iff.Cond)
+			if !ok || rel.Kind != "string" || (rel.Op != token.NEQ && rel.Op != token.EQL) {
+				return
+			}
+			isUser := func(v ssa.Value) bool {
+				c, ok := v.(*ssa.Call)
+				return ok && an.CallObj(c) != nil && an.CallObj(c).Name() == "Username"
+			}
+			isID := func(v ssa.Value) bool { return isPlainParam(p, v, idPrm) }
+			if !((isUser(rel.L) && isID(rel.R)) || (isUser(rel.R) && isID(rel.L))) {
+				return
+			}
+			ne := 0
+			if rel.Op == token.EQL {
+				ne = 1
+			}
+			// from the mismatch edge no successful return of that function is reachable ...
+			okRet := func(x ssa.Instruction) bool {
+				ret, ok := x.(*ssa.Return)
+				if !ok {
+					return false
+				}
+				cls, _ := returnClass(ret)
+				return cls == "nil"
+			}
+			if pathFromBlock(rf, iff.Block().Succs[ne], nil, okRet) != nil {
+				return
+			}
+			if rf == nz {
+				okForeign = true
+				return
+			}
+			// ... and the helper's failure keeps normalizeNodeURI from building the URL
+			for _, c := range an.Calls(nz, false) {
+				if c.Common().StaticCallee() == rf && stores["Host"] != nil {
+					u := an.ErrEdges(c)
+					blocked := len(u.Fail) > 0
+					for _, e := range u.Fail {
+						if pathFromBlock(nz, e.To, nil, func(x ssa.Instruction) bool { return x == ssa.Instruction(stores["Host"]) }) != nil {
+							blocked = false
+						}
+					}
+					if blocked {
+						okForeign = true
+					}
+				}
+			}
+		})
+	}
 	if !okForeign {
 		bad = append(bad, "an override naming a different node id is not refused")
 	}
@@ -192,37 +223,24 @@ func runC19(p *an.Prog, r *an.Run, tier string) {
 				def  *ssa.Parameter
 				meth string
 			}{{hostVal, hostPrm, "Hostname"}, {portVal, portPrm, "Port"}} {
-				phi, ok := v.v.(*ssa.Phi)
-				if !ok {
-					bad = append(bad, "the "+strings.ToLower(v.meth)+" is not chosen between the override's "+v.meth+"() and the default (the address the host supplied would be ignored, or there would be no default)")
-					continue
-				}
-				hasDef, hasOv := false, false
-				for _, e := range phi.Edges {
-					ee := e
-					for {
-						if ph2, ok := ee.(*ssa.Phi); ok && len(ph2.Edges) > 0 {
-							// nested phi: check all
-							for _, e2 := range ph2.Edges {
-								if e2 == ssa.Value(v.def) {
-									hasDef = true
-								}
-								if c, ok := e2.(*ssa.Call); ok && an.CallObj(c) != nil && an.CallObj(c).Name() == v.meth {
-									hasOv = true
-								}
-							}
-						}
-						break
-					}
-					if ee == ssa.Value(v.def) {
-						hasDef = true
-					}
-					if c, ok := ee.(*ssa.Call); ok && an.CallObj(c) != nil && an.CallObj(c).Name() == v.meth && an.RecvNamed(an.CallObj(c)) != nil && an.RecvNamed(an.CallObj(c)).Obj().Name() == "URL" {
-						hasOv = true
-					}
-				}
+				d := p.DerivesIn(nz, 3, v.v)
+				hasDef := d.HasParam(v.def)
+				hasOv := d.CallTo(func(f *types.Func) bool { return an.IsMethod(f, "net/url", "URL", v.meth) }) != nil
 				if !hasDef || !hasOv {
-					bad = append(bad, "the "+strings.ToLower(v.meth)+" is not 'override's "+v.meth+"() if given, else the default'")
+					bad = append(bad, "the "+strings.ToLower(v.meth)+" is not chosen between the override's "+v.meth+"() and the default (the address the host supplied would be ignored, or there would be no default)")
+				}
+				// no hand-made splitting or concatenation on the way
+				for _, n := range d.Nodes {
+					if bo, ok := n.(*ssa.BinOp); ok && bo.Op == token.ADD {
+						if b, ok := bo.Type().Underlying().(*types.Basic); ok && b.Info()&types.IsString != 0 {
+							bad = append(bad, "the "+strings.ToLower(v.meth)+" is assembled by string concatenation")
+						}
+					}
+					if sl, ok := n.(*ssa.Slice); ok {
+						if b, ok := sl.X.Type().Underlying().(*types.Basic); ok && b.Info()&types.IsString != 0 {
+							bad = append(bad, "the "+strings.ToLower(v.meth)+" is cut out of a string by hand")
+						}
+					}
 				}
 			}
 		}
@@ -737,7 +755,7 @@ func runC20(p *an.Prog, r *an.Run, tier string) {
 		}
 		nSt++
 		okMax := false
-		for _, cr := range ctrlRels(st.Block()) {
+		for _, cr := range gateRels(p, st.Block()) {
 			rel := cr.Rel
 			if isGlobalLoad(rel.L, "maxUpdateInterval") {
 				rel = rel.Swap()
